@@ -450,7 +450,7 @@ def _generic(draw, base):
         for k in sorted(p):
             if not isinstance(p[k], float) or fam.channel:
                 continue
-            if k in _EXP_KEYS and not (name.startswith("Ionq") and k == "theta") and draw(st.integers(0, 3)) > 0:
+            if (k in _EXP_KEYS or (k == "theta" and name.endswith("Wide"))) and not (name.startswith("Ionq") and k == "theta" and not name.endswith("Wide")) and draw(st.integers(0, 3)) > 0:
                 p[k] = draw(st.integers(-4000, 4000)) / 1000.0
             elif k in _RAD_KEYS and not name.startswith("Ionq") and draw(st.integers(0, 3)) > 0:
                 p[k] = draw(st.integers(-3500, 3500)) / 500.0
